@@ -444,3 +444,25 @@ Proof.
     unfold times in H'. apply in_map_iff in H'. destruct H' as [y [Hy1 Hy2]]. exists y. split; [exact Hy1|].
     apply sort_in. exact Hy2.
 Qed.
+
+(* every merged event carries at least one variable *)
+Lemma add_spike_nonempty evs t v : Forall (fun e : event => snd e <> []) evs -> Forall (fun e : event => snd e <> []) (add_spike evs t v).
+Proof.
+  induction evs as [|[t' vs] r IH]; intros H; cbn [add_spike].
+  - constructor; [cbn; discriminate|constructor].
+  - inversion H as [|? ? Hh Ht]; subst. destruct (t =? t').
+    + constructor; [cbn; destruct vs; discriminate|exact Ht].
+    + constructor; [exact Hh|apply IH; exact Ht].
+Qed.
+
+Lemma add_flat_nonempty l : forall evs, Forall (fun e : event => snd e <> []) evs -> Forall (fun e : event => snd e <> []) (add_flat evs l).
+Proof.
+  unfold add_flat. induction l as [|[t v] l IH]; intros evs H; cbn [fold_left]; [exact H|].
+  apply IH. apply add_spike_nonempty. exact H.
+Qed.
+
+Theorem merge_nonempty spk : forall e, In e (merge spk) -> snd e <> [].
+Proof.
+  intros e He. unfold merge in He. apply (proj1 (sort_in _ _)) in He. rewrite collect_flat in He.
+  pose proof (add_flat_nonempty (flat spk) [] (Forall_nil _)) as H. rewrite Forall_forall in H. apply H. exact He.
+Qed.
